@@ -8,12 +8,13 @@ the history with 200.  The bytes each attempt put on the wire are de-framed by t
 parser in mc/httpparse.py (never http.client / urllib3) and compared with reference bytes
 computed here from the *specification of the body* (never from urllib3's body_to_chunks).
 
-Oracle clauses (names are the `clause` of a violation):
-  wire-malformed       the de-framer found a problem (bad chunk line, TE+CL, ...)
-  leftover-bytes       bytes left unparsed on a socket at the end (premature terminator, body
-                       longer than Content-Length, second terminator, ...)
-  incomplete-request   the client waits for a response to a request whose framing promised
-                       more bytes than were sent
+Oracle clauses (names are the `clause` of a violation; every sig carries body kind + driver):
+  wire-malformed       the de-framer found a problem (bad chunk line, TE+CL, ...); reported alone,
+                       nothing after a malformed message is attributed
+  leftover-bytes       bytes left unparsed on a socket at the end, or parsed as a garbage request
+                       (premature / second terminator, body longer than Content-Length, ...)
+  incomplete-request   the client waits for a response to a request whose framing promised more
+                       bytes than were sent (sig: how = empty/shorter/other, via = cause of attempt)
   method               an attempt's method is not the planned one (303 -> GET, else unchanged)
   framing              no caller framing header: body-carrying request has exactly one of
                        Content-Length / Transfer-Encoding: chunked (chunked when asked for);
@@ -21,7 +22,8 @@ Oracle clauses (names are the `clause` of a violation):
                        otherwise; caller header: exactly the caller's header, nothing added
   payload              first body-carrying attempt: de-framed payload != reference bytes
   resend-differs       a later attempt that keeps the body: payload != reference bytes
-                       (sig tells empty / shorter / longer / other and what caused the re-send)
+                       (sig: how = empty/shorter/longer/other, via = 307|308|301|retry-503|
+                       retry-reset|retry-connect; only the first differing re-send of a case)
   body-after-303       payload after a 303 is not empty
   attempt-missing / extra-request / bad-outcome   the history was not followed to its 200
   first-attempt-raised / unrewindable-without-body   UnrewindableBodyError where nothing had to
@@ -29,7 +31,11 @@ Oracle clauses (names are the `clause` of a violation):
   spurious-unrewindable  UnrewindableBodyError for a body that is plainly re-sendable (bytes,
                        str, buffers, list/tuple, seekable files whose tell/seek work)
 UnrewindableBodyError raised at attempt >= 2 before anything of that attempt is sent is the
-accepted alternative to an identical re-send for every other body kind.
+accepted alternative to an identical re-send for every other body kind.  "Either" regions are
+listed in run()'s assumptions and counted.
+
+Tiers: quick = drivers {pool, manager} x histories <= 2 x 5 methods; thorough = histories <= 3,
+9 methods, plus PoolManager with cross-host redirects (histories <= 2).
 """
 from __future__ import annotations
 
@@ -279,7 +285,9 @@ class Script(Server):
             return [ConnectionResetError(104, "Connection reset by peer")]
         nxt = self.steps[self.i] if self.i < len(self.steps) else None
         hdrs, tail = [], []
-        if nxt == "connect-error":  # the next attempt must dial again
+        # the next attempt must dial again (cross-host: an idle connection to the other host may
+        # linger from two attempts ago, so every response closes)
+        if nxt == "connect-error" or self.xhost:
             hdrs.append(("Connection", "close"))
             tail.append(EOF)
         head_only = req.method == "HEAD"
@@ -414,7 +422,7 @@ def check(case, obs, ref):
         wi += 1
         n0 = len(V)
         # RFC 9110 15.4.2: a client MAY turn POST into GET after 301 — allowed, counted
-        if idx and steps[idx - 1] == "301" and m == "POST" and w["method"] == "GET" and carries:
+        if idx and steps[idx - 1] == "301" and m == "POST" and w["method"] == "GET":
             m, carries = "GET", False
             either += 1
         # TE next to CL is the caller's own doing only when it passed Content-Length AND chunked=True
@@ -491,7 +499,13 @@ def check(case, obs, ref):
     if aborted:
         return V, "aborted-after-bad-attempt", either, False
     if wi < len(wire):
-        bad("extra-request", {"n": len(wire) - wi}, [x["method"] for x in wire], "%d requests" % wi)
+        extra = wire[wi:]
+        if any(x["problems"] for x in extra):
+            # stray bytes after a complete message that happened to contain CRLFCRLF (e.g. a second terminator)
+            bad("leftover-bytes", {"chunked": chunked, "hdr": hdr, "parsed_as": "garbage-request"},
+                [(x["method"], x["target"], x["problems"]) for x in extra][:3], "no bytes after the framed message")
+        else:
+            bad("extra-request", {"n": len(extra)}, [x["method"] for x in wire], "%d requests" % wi)
 
     # ---- outcome
     oc = obs["outcome"]
